@@ -511,7 +511,7 @@ def annotate_consumed(run, cap):
 
 
 # ----------------------------------------------------------------------------- conformance
-def conformance(run, expected, tol=6):
+def conformance(run, expected, tol=6, swap_thr=None):
     """compare the spec's projected state with the real one, step by step.
     -> (mismatch or None, tie_breaks).  A difference explained by equal real scores is a tie-break, not drift."""
     ties = 0
@@ -553,7 +553,9 @@ def conformance(run, expected, tol=6):
                 rmap = {x["id"]: x["sc"] for x in s["cache"]}
                 def sc_of(a):
                     return None if a is None else smap.get(a[0], rmap.get(a[0]))
-                if ec != rc or (ea is not None and ra is not None and abs(sc_of(ea) - sc_of(ra)) <= 1):
+                at_thr = (swap_thr is not None and ea is not None and ra is not None and sc_of(ea) is not None and sc_of(ra) is not None
+                          and abs(abs(sc_of(ea) - sc_of(ra)) - swap_thr) <= 2)      # gap == threshold in real numbers: f32 decides
+                if ec != rc or (ea is not None and ra is not None and abs(sc_of(ea) - sc_of(ra)) <= 1) or at_thr:
                     ties += 1
                     return None, ties   # the rest of the history depends on the tie-break
             return {"step": k, "field": "cache/active", "spec": {"cache": ec, "active": ea}, "real": {"cache": rc, "active": ra}}, ties
@@ -774,6 +776,10 @@ def gen_replay(c, prop, binp, name, policy=None, attach="vec", late=1, max_hist=
     """generation run (one history per distinct state) -> replay on the real path set -> P-monitors + conformance"""
     import os
     kw = dict(kw)
+    if os.environ.get("VERIF_PS_ONLY_RECORD"):   # development aid (seed sweeps): the generation/replay part does not depend on the seed
+        c.log("skipping generation/replay %s (VERIF_PS_ONLY_RECORD)" % name)
+        return {"states": 0, "replayed": 0, "steps": 0, "nontrivial": set(), "drift": 0, "ties": 0, "conform": 0, "runs": [],
+                "outcomes": {}, "spec_outcomes": {}, "meta": None}
     kw["gen"] = True
     # check = list of invariants: the generation run is at the same time the exhaustive design-level run
     kw["invariants"] = list(check) if check else []
@@ -836,14 +842,23 @@ def gen_replay(c, prop, binp, name, policy=None, attach="vec", late=1, max_hist=
             hk = hist_key(row["h"])
             if nontrivial(row["h"]):
                 st["nontrivial"].add(hk)
-            annotate_consumed(run, mon.cap)
-            for s_ in run["steps"]:
-                kk = s_["a"]["a"] + ":" + str(s_["o"].get("k", ""))
-                outcome_classes[kk] = outcome_classes.get(kk, 0) + 1
-            for v in mon.run(run, {prop}):
+            try:
+                annotate_consumed(run, mon.cap)
+                for s_ in run["steps"]:
+                    kk = s_["a"]["a"] + ":" + str(s_["o"].get("k", ""))
+                    outcome_classes[kk] = outcome_classes.get(kk, 0) + 1
+                found = mon.run(run, {prop})
+            except Exception as ex:      # a record the code under test left in an unexpected shape: observation, not a tool error
+                st["drift"] += 1
+                c.drift("replay %s [%s]: recorded run cannot be evaluated (%s: %s)" % (name, hk, type(ex).__name__, ex))
+                continue
+            for v in found:
                 c.violation(v["key"], v["what"] + " [history %s, step %d, universe %s, policy %s]" % (hk, v["step"], kw["u"], policy),
                             {"meta": meta, "h": row["h"], "step": v["step"], "real": run["steps"][v["step"]]})
-            mis, ties = conformance(run, e)
+            try:
+                mis, ties = conformance(run, e, swap_thr=meta["cfg"]["swap_thr_milli"] * 10)
+            except Exception as ex:
+                mis, ties = {"step": -1, "field": "unreadable record (%s: %s)" % (type(ex).__name__, ex), "spec": None, "real": None}, 0
             st["ties"] += ties
             if mis:
                 st["drift"] += 1
@@ -896,11 +911,16 @@ def record_validate(c, prop, binp, name, u, cfg=None, policy=None, attach="vec",
             st["actions"][a_["a"]] = st["actions"].get(a_["a"], 0) + 1
         if nontrivial(acts):
             st["nontrivial"] += 1
-        annotate_consumed(run, mon.cap)
-        for s_ in run["steps"]:
-            kk = s_["a"]["a"] + ":" + str(s_["o"].get("k", ""))
-            st["outcomes"][kk] = st["outcomes"].get(kk, 0) + 1
-        for v in mon.run(run, {prop}):
+        try:
+            annotate_consumed(run, mon.cap)
+            for s_ in run["steps"]:
+                kk = s_["a"]["a"] + ":" + str(s_["o"].get("k", ""))
+                st["outcomes"][kk] = st["outcomes"].get(kk, 0) + 1
+            found = mon.run(run, {prop})
+        except Exception as ex:
+            c.drift("record %s: run %s cannot be evaluated (%s: %s)" % (name, run.get("run"), type(ex).__name__, ex))
+            continue
+        for v in found:
             c.violation(v["key"], v["what"] + " [recorded run %d of %s, step %d, seed %d]" % (run["run"], name, v["step"], c.seed),
                         {"meta": meta, "h": acts[:v["step"]], "step": v["step"], "real": run["steps"][v["step"]]})
         allruns.append(run)
@@ -917,7 +937,11 @@ def validate_runs(c, name, meta, allruns, st, fix_expiry=True, fix_fifo=True):
     cfgp = _cfgfile(c, name + "_trace.cfg", trace_cfg(meta, fix_expiry=fix_expiry, fix_fifo=fix_fifo))
     evruns = []
     for run in allruns:
-        ev = run_to_events(run, set(mon.allowed), mon.rej)
+        try:
+            ev = run_to_events(run, set(mon.allowed), mon.rej)
+        except Exception as ex:
+            c.drift("trace %s: run %s cannot be converted into events (%s: %s)" % (name, run.get("run"), type(ex).__name__, ex))
+            continue
         if ev is not None and len(ev) > 1:
             evruns.append((run["run"], ev))
     for attempt in range(6):
